@@ -602,7 +602,7 @@ namespace
       for (auto &row : s["rows"].GetArray())
         {
           std::vector<double> c;
-          for (auto &cell : row.GetArray()) c.push_back(cell.IsNull() ? std::nan("") : eval(cell));
+          for (auto &cell : row.GetArray()) c.push_back((cell.IsNull() || (cell.IsObject() && cell.HasMember("null"))) ? std::nan("") : eval(cell));
           if (s.HasMember("rowlet"))
             {
               for (size_t i = 0; i < c.size(); ++i) env()["$" + std::to_string(i)] = c[i];
@@ -632,6 +632,29 @@ namespace
               continue;
             }
           (void) off;
+          if (s.HasMember("h2"))     // the same query on a twin world must give bit-identical values
+            {
+              Handle &H2 = handle(s["h2"].GetInt());
+              if (H2.alive && H2.world())
+                {
+                  ++stats.queries; ++stats.checks; ++stats.by_check["twin"];
+                  std::vector<double> out2;
+                  try
+                    {
+                      out2 = dim == 3 ? H2.world()->properties(std::array<double,3> {{c[0], c[1], c[2]}}, c[3], props)
+                             : H2.world()->properties(std::array<double,2> {{c[0], c[1]}}, c[2], props);
+                    }
+                  catch (const std::exception &e) { mism("query", std::string("twin query threw: ") + e.what()); }
+                  bool same = out2.size() == out.size();
+                  size_t where = 0;
+                  for (size_t i = 0; same && i < out.size(); ++i) if (bits(out[i]) != bits(out2[i])) { same = false; where = i; }
+                  stats.values += static_cast<long>(out.size());
+                  if (!same)
+                    mism("twin", "row [" + fmt(c[0]) + "," + fmt(c[1]) + "," + fmt(c[2]) + "," + fmt(c[3]) + "]: the twin world answers differently",
+                         static_cast<long>(where), where < out.size() ? fmt(out[where]) : "", where < out2.size() ? fmt(out2[where]) : "");
+                }
+            }
+          if (!s.HasMember("checks")) continue;
           for (auto &e : s["checks"].GetArray())
             {
               const std::string k = e["k"].GetString();
@@ -680,6 +703,38 @@ namespace
               if (!ok)
                 mism(k, "row [" + fmt(c[0]) + "," + fmt(c[1]) + "," + fmt(c[2]) + "," + fmt(c[3]) + "]: value differs from the specification's",
                          at, at < static_cast<long>(out.size()) ? fmt(out[at]) : "missing", fmt(want));
+            }
+        }
+    }
+
+    // many distance_to_plane calls: rows = [x, y, z, depth, from | null, along | null]
+    void do_dtable(const Value &s)
+    {
+      Handle &H = handle(s["h"].GetInt());
+      if (!H.alive || !H.world()) { ++stats.skipped_steps; return; }
+      const double rel = s.HasMember("rel") ? eval(s["rel"]) : 1e-6, abs_ = s.HasMember("abs") ? eval(s["abs"]) : 1.;
+      const std::string name = s["name"].GetString();
+      for (auto &row : s["rows"].GetArray())
+        {
+          std::vector<double> c;
+          for (auto &cell : row.GetArray()) c.push_back((cell.IsNull() || (cell.IsObject() && cell.HasMember("null"))) ? std::nan("") : eval(cell));
+          ++stats.queries;
+          try
+            {
+              const auto d = H.world()->distance_to_plane({{c[0], c[1], c[2]}}, c[3], name);
+              const double got[2] = {d.get_distance_from_surface(), d.get_distance_along_surface()};
+              for (int k = 0; k < 2; ++k)
+                {
+                  if (std::isnan(c[4 + k])) continue;
+                  ++stats.checks; ++stats.by_check[k == 0 ? "distance-from" : "distance-along"]; ++stats.values;
+                  if (!(std::fabs(got[k] - c[4 + k]) <= abs_ + rel * std::max(std::fabs(got[k]), std::fabs(c[4 + k]))))
+                    mism(k == 0 ? "distance-from" : "distance-along",
+                         "row [" + fmt(c[0]) + "," + fmt(c[1]) + "," + fmt(c[2]) + "," + fmt(c[3]) + "]: distance differs from the planar construction", k, fmt(got[k]), fmt(c[4 + k]));
+                }
+            }
+          catch (const std::exception &e)
+            {
+              mism("query", std::string("distance_to_plane threw: ") + e.what());
             }
         }
     }
@@ -774,6 +829,7 @@ namespace
           else if (cur_op == "release") do_release(s);
           else if (cur_op == "q") do_query(s);
           else if (cur_op == "qtable") do_qtable(s);
+          else if (cur_op == "dtable") do_dtable(s);
           else if (cur_op == "size") do_size(s);
           else if (cur_op == "dist") do_dist(s);
           else if (cur_op == "engine") do_engine(s);
